@@ -341,6 +341,8 @@ func init() {
 			// numerals at the edges of what fits anywhere: long exponents, long mantissas, many leading zeros of the exponent
 			"1e0000001", "1E+0000000001", "-0.0e-0000001", "1e99999", "1e-99999", "123456789012345678901234567890", "0." + strings.Repeat("0123456789", 30),
 			"-" + strings.Repeat("9", 400), "1e" + strings.Repeat("0", 300) + "1",
+			// a type shortcut with an or rule of JSON types (once accepted: Example then returned a bare error code)
+			"[\n  @1 // {or:[\"integer\",\"float\"]}\n]", "@t // {or: [\"integer\", \"string\"]}", "{\n  \"k\": @t // {or: [\"null\"], optional: true}\n}",
 			// exponents no memory can hold
 			"1e9223372036854775807", "1e-9223372036854775807", "1e92233720368547758070", "-1.5E+4000000000", "1e2000000000", "1e-2000000000",
 			// regex types the example generator cannot serve (empty classes)
